@@ -833,6 +833,11 @@ void matrixSslDeleteSession(ssl_t *ssl)
 #endif
 
     sslFreeHSHash(ssl);
+# ifdef USE_CLIENT_SIDE_SSL
+    psFree(ssl->clientOfferedSuites, ssl->sPool);
+    ssl->clientOfferedSuites = NULL;
+    ssl->clientOfferedSuitesLen = 0;
+# endif
 
 /*
     If we have a sessionId, for servers we need to clear the inUse flag in
